@@ -10,7 +10,7 @@
 //	   post = - | pp[+pp...]    pp   = J:var:field | H:var | A:code | B
 //	   tmpl = - | E | R:req
 //	scens  = scen[;scen...]     scen = name,weight|-,hexshoot[:hexshoot...]
-//	script = - | k:act[,k:act...]   act = s<code> | g | n | m | h
+//	script = - | k:act[,k:act...]   act = s<code> | g | t | n | m | h
 package a15
 
 import (
